@@ -17,7 +17,10 @@ def include_cfg(files, extra):
 def include_case(sc):
     files = {}
     def text(node):
-        return f'.byte {MARK[node]}\n' + ''.join(f'#include "{n}.asm"\n' for n in sc['incs'][node])
+        lines = [f'#include "{n}.asm"\n' for n in sc['incs'][node]]
+        if node == 'main' and sc.get('skipmain') and lines:
+            lines[-1] = '#ifdef SYMBOL_THAT_IS_NOT_DEFINED\n' + lines[-1] + '#endif\n'
+        return f'.byte {MARK[node]}\n' + ''.join(lines)
     files['d0/main.asm'] = text('main')
     for f, dirs in sc['place'].items():
         for d in dirs:
